@@ -1,6 +1,6 @@
 """Per-property configuration of ./check: which theorem modules, which runners, which ops count."""
 
-HOOK_COMMITS = []
+HOOK_COMMITS = ["49d50de (accessors verif_parts/verif_counts/verif_inner + check-cfg lint)", "1ad7b36 (src/verif.rs + sched_point calls before atomic operations)"]
 
 # property id -> reason, for properties deliberately not claimed (default reason: not built yet)
 NOT_CLAIMED = {}
